@@ -306,6 +306,36 @@ def check_c02(run, drv, ncases, start=0):
                                       dict(layout=meta["layout"]))
                 if not np.allclose(np.asarray(live.hm0().values, dtype=float), np.asarray(fresh.hm0().values, dtype=float), rtol=1e-11, equal_nan=True):
                     run.violation("after an in-place change of the density, Hm0 is not that of the changed density", dict(layout=meta["layout"]))
+            # a 2D file that also carries (stale / placeholder) a1..b2 variables: the 1D conversion carries the moments of the density
+            if case % 4 == 2:
+                run.case("stored_moment_variables", key=case)
+                ds_m = spec.dataset.copy(deep=True)
+                lead_dims = tuple(ds_m["variance_density"].dims[:-1])
+                for nm in ("a1", "b1", "a2", "b2"):
+                    ds_m[nm] = (lead_dims, np.full(tuple(ds_m["variance_density"].shape[:-1]), np.nan if case % 8 == 2 else 0.123))
+                from ocean_science_utilities.wavespectra.spectrum import FrequencyDirectionSpectrum
+                try:
+                    withm = FrequencyDirectionSpectrum(ds_m)
+                    s1m = withm.as_frequency_spectrum()
+                    for nm, g in zip(("a1", "b1", "a2", "b2"), got[1:]):
+                        a_ = np.asarray(getattr(s1m, nm).values, dtype=float)
+                        if a_.shape != g.shape or not np.allclose(a_, g, rtol=1e-12, atol=1e-300, equal_nan=True):
+                            run.violation("the 1D reduction of a 2D spectrum does not carry the directional moments of the density "
+                                          "(variables of the same name stored in the 2D dataset took their place)", dict(moment=nm, layout=meta["layout"]))
+                except Exception as exm:
+                    run.count("stored_moment_variables_rejected")
+            # a closed direction axis (0, ..., 360 with 360 repeating 0): the repeated bin has width zero
+            if case % 4 == 3 and len(d) >= 4:
+                run.case("closed_direction_axis", key=case)
+                nd_c = rng.choice([8, 12, 36])
+                d_c = np.linspace(0.0, 360.0, nd_c + 1)
+                sc, mc = sp.make_2d(rng, layout=meta["layout"], f=f, d=d_c, nan_rate=0.0, depth_mode="deep")
+                st_c = np.asarray(sc.direction_step.values, dtype=float)
+                want_c = np.sum(mc["E"] * st_c, axis=-1)
+                got_c = np.asarray(sc.e.values, dtype=float)
+                if abs(st_c.sum() - 360.0) > 1e-9 or not np.allclose(got_c, want_c, rtol=1e-12, atol=1e-300):
+                    run.violation("on a closed direction axis e(f) is not the sum over directions of density x wrapped bin width",
+                                  dict(directions=d_c.tolist(), steps=st_c.tolist(), got=got_c.reshape(-1)[:4].tolist(), want=want_c.reshape(-1)[:4].tolist()))
             # 2D -> 1D conversion
             s1d = spec.as_frequency_spectrum()
             run.case("to1d", key=case)
@@ -439,6 +469,11 @@ def check_c03(run, drv, ncases, thorough, start=0):
         with warnings.catch_warnings():
             warnings.simplefilter("ignore")
             spec, meta = sp.make_2d(rng, nan_rate=0.0, uniform=(case % 2 == 0))
+            if case % 3 == 1:
+                # the same sea with its direction axis labelled in (-180, 180]
+                dneg = np.where(meta["d"] % 360.0 > 180.0, meta["d"] % 360.0 - 360.0, meta["d"] % 360.0)
+                spec, meta = sp.make_2d(rng, layout=meta["layout"], f=meta["f"], d=dneg, E=meta["E"], depth_mode="deep")
+                run.count("twoD_negative_direction_labels")
             f, d, E = meta["f"], meta["d"], meta["E"]
             run.count("twoD_dirgrid_" + meta["dkind"])
             wdt = dir_widths(d)
@@ -581,7 +616,12 @@ def check_c04(run, drv, ncases, start=0):
                 spec, meta = sp.make_1d(rng, layout=layout, f=f, e=e)
             em = sp.members(e, 1)
             run.count("layout_" + layout)
+            stored_before = np.array(spec.dataset["variance_density"].values, dtype=float).copy()
             for (fmin, fmax) in sp.bands(rng, f):
+                if not np.array_equal(np.asarray(spec.dataset["variance_density"].values, dtype=float), stored_before, equal_nan=True):
+                    run.violation("a peak query changed the variance density of the spectrum it was asked of (later answers refer to the changed data)",
+                                  dict(layout=layout, two_d=two_d))
+                    break
                 fm = "inf" if math.isinf(fmax) else bits(fmax)
                 inband = (f >= fmin) & (f < fmax)
                 try:
